@@ -180,7 +180,7 @@ type c08Case struct {
 }
 
 func TestC08Responder(t *testing.T) {
-	ev.Rule("frame sequences (1-30 frames over: every SType 0..255, PType 0/non-0, header-only or with body, arbitrary session id / system bytes / byte 2 / byte 3; structured deselect->select->deselect, reject storms, orphan responses, Separate in each state, frames pipelined behind a Separate.req in the same write, a second TCP connection) written in groups of 1-4 frames per TCP write to a real connection in both roles; oracle = ref/fsm.Responder, field-by-field comparison of every frame the library sent back + handler deliveries + State() at the quiescent end; non-trivial = the sequence crosses Selected<->NotSelected at least twice or contains >= 2 distinct reject classes")
+	ev.Rule("frame sequences (1-30 frames over: every SType 0..255, PType 0/non-0, header-only or with body, arbitrary session id / system bytes / byte 2 / byte 3; structured deselect->select->deselect, reject storms, orphan responses, Separate in each state, frames pipelined behind a Separate.req in the same write, a second TCP connection) written in groups of 1-4 frames per TCP write (in a third of the cases with 150 ms pauses between groups, T7 400 ms, write timeout 100 ms that may be switched off at runtime) to a real connection in both roles; oracle = ref/fsm.Responder, field-by-field comparison of every frame the library sent back + handler deliveries + State() at the quiescent end; non-trivial = the sequence crosses Selected<->NotSelected at least twice or contains >= 2 distinct reject classes")
 	ev.Assume("A Select.rsp / Reject.req that refuses the library's own open Select.req while the peer's Select.req has already established the session, and responses whose system bytes equal an open transaction of another type, are not generated (E37 does not prescribe the outcome)")
 	vt.Bubble(t, func(t *testing.T) {
 		vt.CheckBubble(t, 20000, 1000000, func(rt *rapid.T) {
@@ -196,6 +196,14 @@ func runC08(rt *rapid.T, c c08Case) {
 	// let out (and left unanswered) at the very end of the sequence
 	ownProbe := rapid.IntRange(0, 4).Draw(rt, "ownProbe") == 0
 	copts := []hsms.ConnOption{hsms.WithSessionID(c.session), hsms.WithSessionIDValidation(c.validate), hsms.WithT7(10 * time.Second), hsms.WithT6(5 * time.Second)}
+	// timed mode: time passes between the groups (never enough for a timer that is legitimately
+	// running to expire): T7 400 ms counts from the latest entry to NOT SELECTED, a write deadline of
+	// 100 ms belongs to one write only, and the write timeout may be switched off at runtime
+	timed := !ownProbe && rapid.IntRange(0, 2).Draw(rt, "timed") == 0
+	const c08T7, c08Pause = 400 * time.Millisecond, 150 * time.Millisecond
+	if timed {
+		copts = append(copts, hsms.WithT7(c08T7), hsms.WithWriteTimeout(100*time.Millisecond))
+	}
 	if ownProbe {
 		copts = append(copts, hsms.WithLinktestInterval(400*time.Millisecond), hsms.WithLinktestFailThreshold(3), hsms.WithT6(50*time.Millisecond), hsms.WithT7(time.Hour))
 	}
@@ -236,6 +244,8 @@ func runC08(rt *rapid.T, c c08Case) {
 		rt.Fatalf("VERIF-INFRA: %v", err)
 	}
 	m := &fsm.Responder{Validate: c.validate, Session: c.session}
+	nsSince := time.Now() // the latest entry to NOT SELECTED
+	writeTimeoutOff := false
 	synctest.Wait()
 	if c.active {
 		got := p.Take()
@@ -270,6 +280,25 @@ func runC08(rt *rapid.T, c c08Case) {
 			hist = append(hist, "<second TCP connection: refused>")
 			classes["second-connection"] = true
 		}
+		if timed && g > 0 {
+			if !writeTimeoutOff && rapid.IntRange(0, 5).Draw(rt, "writeTimeoutOff") == 0 {
+				writeTimeoutOff = true
+				if err := w.conn.UpdateConfigOptions(hsms.WithWriteTimeout(0)); err != nil {
+					fail("UpdateConfigOptions(WithWriteTimeout(0)): %v", err)
+				}
+				hist = append(hist, "<write timeout switched off at runtime>")
+				classes["write-timeout-off-at-runtime"] = true
+			}
+			if rapid.Bool().Draw(rt, "pause") && (m.Selected || time.Until(nsSince.Add(c08T7)) > c08Pause+20*time.Millisecond) {
+				time.Sleep(c08Pause)
+				synctest.Wait()
+				hist = append(hist, fmt.Sprintf("<%v pass>", c08Pause))
+				classes["timed-pause"] = true
+				if eof, _, _ := p.EOF(); eof {
+					fail("the connection was ended during a pause of %v although no timer that is legitimately running could have expired (T7 %v counts from the latest entry to NOT SELECTED, %v ago; selected=%v)", c08Pause, c08T7, time.Since(nsSince), m.Selected)
+				}
+			}
+		}
 		k := rapid.IntRange(1, 4).Draw(rt, "groupSize")
 		var frames []e37.Frame
 		var want []e37.Frame
@@ -285,6 +314,9 @@ func runC08(rt *rapid.T, c c08Case) {
 			eff := m.Step(f)
 			if was != m.Selected {
 				crossings++
+				if !m.Selected {
+					nsSince = time.Now()
+				}
 			}
 			classes[eff.Class] = true
 			frames = append(frames, f)
